@@ -31,6 +31,7 @@ def run(ctx):
     ctx.guard(rule_d, ctx, ix)
     ctx.guard(rule_e, ctx, ix)
     ctx.guard(rule_f, ctx, ix)
+    ctx.guard(rule_g, ctx, ix)
 
 
 def rule_a(ctx, ix):
@@ -604,3 +605,12 @@ def rule_f(ctx, ix):
                       'first, and the request raises ValueError instead of returning full[view]' % norm(c)[:80], where=where(f, c))
     if narr < 1:
         raise AnalysisError('CoordinateComponent._calculate: the index-array path is no longer recognised')
+
+
+def rule_g(ctx, ix):
+    """The single-axis transformations flatten their input for 1-d coordinate objects and reshape the result: one element order."""
+    R = 'C15.g'
+    ctx.describe(R, 'flatten / reshape pairs around the coordinate transformation use the same (C) element order', floor=2)
+    n = common.check_element_order(ctx, R, ix, [HELPERS], what='the transformed values are put back with a C-order reshape')
+    if n < 2:
+        raise AnalysisError('C15.g: only %d flatten / reshape calls in %s' % (n, HELPERS))
